@@ -33,6 +33,8 @@ COMPONENTS = {
 }
 PROBES = ["subscribe-duplicate", "unsubscribe-all", "node-replaced", "node-removed", "frame-for-dead-node", "error-frame", "remote-frame",
           "duplicate-frame", "extended-id-sent", "extended-id-received", "extra-sdo-channel", "scanner-reset", "node-re-added"]
+# probes that mark an injected disturbance; the runner also counts them as fired faults in the evidence
+FAULT_PROBES = {'duplicate-frame': 'duplicate-frame', 'error-frame': 'error-frame', 'frame-for-dead-node': 'frame-for-removed-node', 'remote-frame': 'remote-frame'}
 
 USER_IDS = (0x123, 0x181, 0x081, 0x701, 0x000, 0x582, 0x7E4, 0x10000123)
 NODE_IDS = (1, 2, 3, 5, 64, 127)
